@@ -21,7 +21,9 @@ RULE = ("malformed stream for each codec: random bytes (0-300), truncation at ev
         "decoder object per codec decodes A, a rejected buffer, B (same shape), A again and every array handed "
         "out earlier is re-checked; valid files of an independent writer with other layouts (values before the "
         "table, shuffled / padded tables, wider bit widths, gaps, reversed channel order, table offsets using "
-        "bits 20..23) must decode. "
+        "bits 20..23) must decode; valid JPEGs about which Pillow only warns (MAX_IMAGE_PIXELS lowered in the "
+        "harness process, several warning filters) must decode; the raw encoder is given the chunk C-ordered / "
+        "Fortran-ordered / big-endian / strided / as a transposed view and must write the C-order little-endian items. "
         "non-trivial = buffer derived from a valid encoding with >= 2 blocks or channels (cseg), any "
         "non-empty buffer (raw), any buffer Pillow can open (jpeg)")
 
@@ -258,10 +260,14 @@ def raw_canon(o, isz):
     return o
 
 
+RAW_FORMS = ["readonly_c", "fortran", "big_endian", "strided", "transposed_view"]
+
+
 def run_raw(R, quick):
     import numpy as np
     rng = R.rng
     items = []
+    nvalid = [0]
     for _ in range(500 if quick else 30000):
         dt = rng.choice(list(RAW_TYPES))
         isz = RAW_TYPES[dt]
@@ -327,7 +333,26 @@ def run_raw(R, quick):
             R.violation("valid raw data rejected", case, {"impl": impl})
         if data is not None:
             a = np.frombuffer(data, dtype=np.dtype(dt).newbyteorder("<")).reshape(C, Z, Y, X)
-            ie = outcome_of(lambda: bytes(enc.encode(a)))
+            nvalid[0] += 1
+            form = RAW_FORMS[nvalid[0] % len(RAW_FORMS)]           # stratified
+            if form == "big_endian":
+                given = a.astype(a.dtype.newbyteorder(">"))
+            elif form == "fortran":
+                given = np.asfortranarray(a)
+            elif form == "strided":
+                big = np.zeros(tuple(2 * d + 1 for d in a.shape), dtype=a.dtype)
+                given = big[1::2, 1::2, 1::2, 1::2]
+                given[...] = a
+            elif form == "transposed_view":
+                given = np.ascontiguousarray(a.transpose(3, 2, 1, 0)).transpose(3, 2, 1, 0)
+            else:
+                given = a                                           # read-only C-ordered buffer
+            case = dict(case, form=form)
+            R.count("raw:encode_form:" + form)
+            before = (given.dtype.str, given.shape, given.strides, given.tobytes())
+            ie = outcome_of(lambda: bytes(enc.encode(given)))
+            if (given.dtype.str, given.shape, given.strides, given.tobytes()) != before:
+                R.violation("raw encode() modified the caller's array", case, {})
             me = model_outcome(next(ereplies))
             me = ["ok", bytes(me[1])] if me[0] == "ok" else me
             if ie != me:
@@ -682,6 +707,43 @@ def run_foreign(R, quick):
                 R.disagree("cseg decode vs cseg_decode (foreign layout)", case, c02._short(impl), c02._short(mod))
 
 
+def run_jpeg_warning(R):
+    """Pillow only WARNS (DecompressionBombWarning) about images between MAX_IMAGE_PIXELS and twice that
+    limit and decodes them normally: such a chunk is valid data.  Instead of a 90-million-voxel chunk the
+    limit is lowered in this process for a few ordinary chunks, under several warning filters of the
+    caller (the decoder's behaviour must not depend on them)."""
+    import numpy as np
+    import PIL.Image
+    rng = R.rng
+    saved = PIL.Image.MAX_IMAGE_PIXELS
+    try:
+        for C in (1, 3):
+            for filt in ("ignore", "always", "default", "error-for-others"):
+                shape = [rng.randint(6, 12), rng.randint(6, 12), rng.randint(2, 4)]
+                X, Y, Z = shape
+                a = np.array([rng.randrange(256) for _ in range(C * X * Y * Z)], dtype=np.uint8).reshape(C, Z, Y, X)
+                enc = make_jpeg(C)
+                buf = bytes(enc.encode(a))
+                PIL.Image.MAX_IMAGE_PIXELS = (X * Y * Z * 2) // 3          # pixels in (limit, 2*limit]
+                with warnings.catch_warnings(record=True):
+                    if filt == "error-for-others":
+                        warnings.simplefilter("error")
+                        warnings.simplefilter("ignore", PIL.Image.DecompressionBombWarning)
+                    else:
+                        warnings.simplefilter(filt)
+                    impl = c02.impl_arr(outcome_of(lambda: enc.decode(buf, shape)))
+                PIL.Image.MAX_IMAGE_PIXELS = saved
+                case = {"codec": "jpeg", "kind": "bomb_warning:" + filt, "C": C, "shape": shape, "buf": buf,
+                        "max_image_pixels": (X * Y * Z * 2) // 3}
+                R.case(case, nontrivial=True)
+                R.count(f"jpeg:bomb_warning:{impl[0]}")
+                if impl[0] != "ok" or impl[1][0] != [C, Z, Y, X] or impl[1][1] != "uint8":
+                    R.violation("valid JPEG data rejected (Pillow merely warns about its size)", case,
+                                {"impl": c02._short(impl)})
+    finally:
+        PIL.Image.MAX_IMAGE_PIXELS = saved
+
+
 def run_sessions(R, quick):
     """ONE decoder object per codec decodes valid chunk A, a rejected buffer, valid chunk B of the
     same shape, A again: every array handed out earlier must still hold its chunk afterwards."""
@@ -740,6 +802,7 @@ def run(R):
     run_regressions(R)
     run_sessions(R, quick)
     run_foreign(R, quick)
+    run_jpeg_warning(R)
     run_cseg(R, quick)
     run_raw(R, quick)
     run_jpeg(R, quick)
@@ -810,6 +873,18 @@ def replay(R, payload):
     case = payload.get("case") or (payload.get("disagreements") or [{}])[0].get("case", {})
     if case.get("kind") == "session":
         return _replay_session(case)
+    if str(case.get("kind", "")).startswith("bomb_warning"):
+        import PIL.Image
+        saved = PIL.Image.MAX_IMAGE_PIXELS
+        try:
+            PIL.Image.MAX_IMAGE_PIXELS = case["max_image_pixels"]
+            with warnings.catch_warnings():
+                warnings.simplefilter("ignore")
+                enc = make_jpeg(case["C"])
+                impl = c02.impl_arr(outcome_of(lambda: enc.decode(_bytes(case["buf"]), case["shape"])))
+        finally:
+            PIL.Image.MAX_IMAGE_PIXELS = saved
+        return impl[0] != "ok"
     if "buf" not in case:
         return True
     if isinstance(case["buf"], str) and case["buf"].startswith("far_table_file("):
